@@ -13,7 +13,7 @@ import (
 )
 
 func init() {
-	Register(&Scenario{Prop: "C10", Name: "rejected-do-not-block", Run: scenC10, Weight: 1,
+	Register(&Scenario{Prop: "C10", Name: "rejected-do-not-block", Run: scenC10, SoftParks: true, Weight: 1,
 		Rule: "honest writer W, receiver R (ReplicationConcurrency in {1,2,32}) and an adversary; W writes 1-3 entries that R replicates, then 1-4 more while R is cut off (their announcements are lost); after the heal, before any honest exchange, the adversary announces to R 1-3 messages whose head lists mix copies of W's valid current heads with 1-3 rejected heads drawn from {non-writer author, writer's identity block with a foreign signature, entry of another database written by W, valid entry with a wrong claimed hash} at every position (permutation drawn per run), block fetches complete in a drawn order; then W's valid heads are announced again by an honest message (topic announcement, head exchange after the pollers notice the heal, or manual Sync, drawn per run); oracle: at rest R holds every entry W wrote; non-trivial = at least one mixed message (valid and rejected heads together) was processed and R lacked >=1 valid entry before it"})
 }
 
